@@ -7,11 +7,14 @@ rows = ["| seeded change | property | what was changed (abridged) | caught by |"
 for name in sorted(res):
     r = res[name]
     what = re.sub(r"\s+", " ", str(r.get("what") or ""))[:150].replace("|", "/")
-    rows.append(f"| {name} | {r['property']} | {what} | {', '.join(r.get('caught_by') or []) or '**not caught**'} |")
+    caught = ', '.join(r.get('caught_by') or []) or ('not caught -- outside the property\'s quantifier: ' + str(r['out_of_domain'])[:160] if r.get('out_of_domain') else '**not caught**')
+    rows.append(f"| {name} | {r['property']} | {what} | {caught} |")
 n = len(res)
 quick = sum(1 for r in res.values() if any(k.endswith(":quick") for k in r.get("caught_by") or []))
 anyc = sum(1 for r in res.values() if r.get("caught_by"))
-summary = f"{n} seeded changes; {anyc} caught, {quick} of them already by a quick check, {anyc - quick} only by a thorough check, {n - anyc} not caught."
+ood = sum(1 for r in res.values() if r.get("out_of_domain") and not r.get("caught_by"))
+summary = (f"{n} seeded changes; {anyc} caught, {quick} of them already by a quick check, {anyc - quick} only by a thorough check; "
+           f"{n - anyc - ood} not caught; {ood} not caught because the change only acts outside the property's quantifier.")
 p = os.path.join(ROOT, "DESIGN.md")
 s = open(p).read()
 a, b = s.index("<!-- SEEDED-TABLE-BEGIN -->"), s.index("<!-- SEEDED-TABLE-END -->")
